@@ -89,6 +89,13 @@ CLAIMED = {
         note=TB + "; generator-based functions (rle_mask, brle_mask, sorted_*_gather_1d) and dense<->run-length converters are covered by the exhaustive bounded tier only; run counts 1..5 are a stated bound for the symbolic codecs.",
         technique="contract-based deductive verification (symbolic execution of the unmodified source over integer run lists and index arrays, position-wise decode spec, z3 LIA) + exhaustive small-scope contract evaluation on the real classes",
     ),
+    "C15": dict(
+        category="proof",
+        text="creation.box is executed symbolically for EVERY positive extents (and in its bounds form): the twelve concrete faces are closed and consistently wound, the eight vertices are exactly the distinct corners of the requested box, the signed-tetrahedron volume of the real faces over the symbolic vertices is the product of the extents and the area 2(ab+bc+ca) (Trimesh constructor replaced by a recording ghost; placement is C04's contract). Analytic measures on a ghost self for every real parameter: Cylinder volume and inertia, Sphere volume / area / inertia, Box volume, inertia.cylinder_inertia and sphere_inertia against the textbook closed forms. Bounded on the real code: cylinder, cone, annulus for section counts 3..32 (64 thorough), box, capsule, uv_sphere, torus, icosphere, extrusions of a square / holed / L-shaped polygon, partial revolutions with caps x identity / rigid / mirror / mirror+rotation placements: watertight, consistently wound, positive volume, volume and area equal to the closed form of the inscribed tessellation; six resolution sequences converge monotonically from below to the smooth volume; five primitive kinds x three placements x sequences of one or two parameter edits x three pre-reads x ten first reads after the edit: the mesh equals that of a freshly built primitive. One defect found this way (inside-out revolved shapes under mirroring transforms) was repaired.",
+        design_ref="DESIGN.md §4 C15",
+        note=TB + "; revolved, swept and extruded shapes are bounded (parameter grids and section counts are fixed lists); sweep_polygon is not covered.",
+        technique="contract-based deductive verification (symbolic execution of creation.box with a ghost constructor, ghost-self contracts for the analytic measures, z3) + bounded contract evaluation on the real code against inscribed-tessellation closed forms",
+    ),
     "C17": dict(
         category="proof",
         text="Ownership contract of every copy routine evaluated on the real objects: for 18 objects/states (meshes fresh / with every cached value read / face colours + nested metadata + attributes / vertex colours / texture / density and centre-of-mass overrides; Box, Cylinder(sections=7), Sphere(subdivisions=1), Capsule, Extrusion, primitive with overrides; Path2D with polygons read, Path3D, PointCloud, nested Scene, dense and run-length VoxelGrid) x copy(), copy.copy, copy.deepcopy (+ include_cache=True): (faithful) every field of the abstract state - arrays, primitive parameters, overrides, attributes, visuals, metadata, scene graph - is equal; (fresh) NO mutable object (writeable array, dict, list, set, geometry / visual / graph / tree object) is reachable from both objects, over every reference path of both object graphs; (frame) up to ten edits, in place and through the API, applied to either object leave every value the other reports - read before and computed after - unchanged. The static obligations (proof-level, tiny): the copy routine of each of the 13 classes named by the statement exists in the current source and never returns self or a bare attribute of self. Seven defects found this way were repaired; sharing of cached objects by include_cache / copy.copy(mesh) is a recorded known finding.",
